@@ -5,4 +5,7 @@ MCMoveOffsets == {-2, -1, 0, 1, 2, 3}
 MCChunkSizes == {0, 1, 2, 3}
 MCDelims == {0, 10}
 MCOrders == {"LE", "BE"}
+\* the Unreal 2 string operation has its own small universe: length bytes 0..3 and 128..130, an escape, control codes
+U2Alphabet == {0, 1, 2, 3, 27, 65, 129, 130}
+U2Ops == {[op |-> "u2str"], [op |-> "u8"], [op |-> "remaining"]}
 =============================================================================
